@@ -101,7 +101,7 @@ theorem qsim_bump {P : Qp} {s t : St} (hR : StRq P s t) (e : Nat) {g : Frame →
   refine ⟨⟨by rw [a2, b2]; exact hfr.outer, by rw [a3, b3]; exact hfr.depth,
     by rw [a4, b4]; exact hfr.cacheKey, by rw [a5, b5]; exact hfr.function,
     by rw [a1, b1]; exact hfr.lk, by rw [b1]; exact hfr.cl, by rw [b1, b3]; exact hfr.dirty, ?_, ?_,
-    by rw [hl fs, hl ft]; exact hfr.localFunc⟩, ?_⟩
+    by rw [hl fs, hl ft]; exact hfr.localFunc, by rw [a1, b3]; exact hfr.dirtyS⟩, ?_⟩
   · intro h
     obtain ⟨h1, h2⟩ := hfr.missNew h
     exact ⟨by rw [a6, b6, h1], hc fs ft h2⟩
@@ -269,7 +269,7 @@ theorem FrQ.setStore {P : Qp} {i : Nat} {fs ft fs' ft' : Frame} (h : FrQ P i fs 
   obtain ⟨a1, a2, a3, a4, a5, a6, a7⟩ := hs
   obtain ⟨b1, b2, b3, b4, b5, b6, b7⟩ := ht
   refine ⟨by rw [a2, b2]; exact h.outer, by rw [a3, b3]; exact h.depth, by rw [a4, b4]; exact h.cacheKey,
-    by rw [a5, b5]; exact h.function, ?_, ?_, ?_, ?_, ?_, hl⟩
+    by rw [a5, b5]; exact h.function, ?_, ?_, ?_, ?_, ?_, hl, ?_⟩
   · intro n hn
     rw [a1, b1, lookupStore_setStore, lookupStore_setStore]
     by_cases hnn : n = name
@@ -289,11 +289,17 @@ theorem FrQ.setStore {P : Qp} {i : Nat} {fs ft fs' ft' : Frame} (h : FrQ P i fs 
     rw [a6, a7, b6, b7]; exact h.missNew hi
   · intro hi
     rw [a6, b6]; exact h.missOld hi
+  · intro n hn w hw
+    have hnn : n ≠ name := fun hh => hnd (hh ▸ hn)
+    rw [a1, lookupStore_setStore] at hw
+    simp only [hnn, if_false] at hw
+    rw [b3]
+    exact h.dirtyS n hn w hw
 
 /-- deleting a name that is not dirty -/
 theorem FrQ.delStore {P : Qp} {i : Nat} {fs ft : Frame} (h : FrQ P i fs ft) (name : String) (hnd : ¬ P.D i name) :
     FrQ P i { fs with store := delStore fs.store name } { ft with store := delStore ft.store name } := by
-  refine ⟨h.outer, h.depth, h.cacheKey, h.function, ?_, ?_, ?_, h.missNew, h.missOld, h.localFunc⟩
+  refine ⟨h.outer, h.depth, h.cacheKey, h.function, ?_, ?_, ?_, h.missNew, h.missOld, h.localFunc, ?_⟩
   · intro n hn
     simp only [lookupStore_delStore]
     by_cases hnn : n = name
@@ -308,6 +314,10 @@ theorem FrQ.delStore {P : Qp} {i : Nat} {fs ft : Frame} (h : FrQ P i fs ft) (nam
     have hnn : n ≠ name := fun hh => hnd (hh ▸ hn)
     simp only [lookupStore_delStore, hnn, if_false]
     exact h.dirty n hn
+  · intro n hn w hw
+    have hnn : n ≠ name := fun hh => hnd (hh ▸ hn)
+    simp only [lookupStore_delStore, hnn, if_false] at hw
+    exact h.dirtyS n hn w hw
 
 theorem clean_refTo {P : Qp} (o : Nat) (name : String) (obj : Obj) (hnd : ¬ P.D o name) (hc : clean P obj) :
     clean P (refTo o name obj) := by
@@ -600,12 +610,52 @@ theorem qsim_storeSet {P : Qp} {s t : St} (hR : StRq P s t) (e : Nat) (name : St
   · exact this.2 k e' n' h1
   · subst h1; simp [notRef] at hnr
 
+/-- both runs see the same answer to "the top level frame binds `name` to a function" -/
+theorem rootFnOf_q {P : Qp} {s t : St} (hR : StRq P s t) (name : String) : rootFnOf s name = rootFnOf t name := by
+  unfold rootFnOf
+  rw [hR.root]
+  cases hte : t.frames[t.root]? with
+  | none => rw [hR.none hte]
+  | some ft =>
+    obtain ⟨fs, hfs, hfr⟩ := hR.frames t.root ft hte
+    rw [hfs]
+    dsimp only
+    rw [hfr.depth]
+    by_cases hd : P.D t.root name
+    · obtain ⟨_, v, hv, _, hvf⟩ := hfr.dirty name hd
+      rw [hv]
+      have ht : (isFuncObj v && ft.depth == 0) = false := by
+        rcases hvf with h | h
+        · rw [h]; rfl
+        · have : (ft.depth == 0) = false := by simpa using h
+          rw [this]; simp
+      cases hls : lookupStore fs.store name with
+      | none => simp only [ht]
+      | some w =>
+        have hs : (isFuncObj w && ft.depth == 0) = false := by
+          rcases hfr.dirtyS name hd w hls with h | h
+          · rw [h]; rfl
+          · have : (ft.depth == 0) = false := by simpa using h
+            rw [this]; simp
+        simp only [ht, hs]
+    · rw [hfr.lk name hd]
+      cases lookupStore ft.store name with
+      | none => rfl
+      | some o => simp only [Option.map, isFuncObj_ren]
+
+theorem qsim_rootBindsFunc_bind {P : Qp} {s t : St} (hR : StRq P s t) (name : String) {f g : Bool → M α}
+    {Q : α → α → Prop} (h : SimQ P (f (rootFnOf t name)) (g (rootFnOf t name)) s t Q) :
+    SimQ P (rootBindsFunc name >>= f) (rootBindsFunc name >>= g) s t Q := by
+  refine SimQ.bind_read (runM_rootBindsFunc name s) (runM_rootBindsFunc name t) ?_
+  rw [rootFnOf_q hR]; exact h
+
 theorem qsim_envCreate {P : Qp} {s t : St} (hR : StRq P s t) (e : Nat) (name : String) (val : Obj)
     (hnd : ¬ P.D e name) (hcv : clean P val) :
     SimQ P (envCreate (sh P.σ e) name (ren P.σ val)) (envCreate e name val) s t (QOq P) := by
   unfold envCreate
   refine SimQ.bind (qsim_valueOf hR val hcv) ?_ (by tr) (by tr)
   rintro a v s1 t1 hR1 ⟨rfl, hnr, hc⟩
+  refine qsim_rootBindsFunc_bind hR1 name ?_
   refine SimQ.bind (Q := fun _ _ => True) ?_ (fun _ _ s2 t2 hR2 _ => SimQ.pure hR2 ⟨rfl, hc⟩) (by tr) (by tr)
   exact qsim_storeSet hR1 e name hnd hnr hc _ _ (fun f => ⟨rfl, rfl, rfl, rfl, rfl, rfl, rfl⟩)
     (fun f => ⟨rfl, rfl, rfl, rfl, rfl, rfl, rfl⟩)
@@ -619,6 +669,7 @@ theorem qsim_envStoreAt {P : Qp} {s t : St} (hR : StRq P s t) (w e : Nat) (name 
   rw [hfr.lk name hnd]
   refine SimQ.bind (qsim_functionChanged hR w _) ?_ (by tr) (by tr)
   intro _ _ s1 t1 hR1 _
+  refine qsim_rootBindsFunc_bind hR1 name ?_
   refine SimQ.bind (Q := fun _ _ => True) ?_ (fun _ _ s2 t2 hR2 _ => SimQ.pure hR2 ⟨rfl, hc⟩) (by tr) (by tr)
   exact qsim_storeSet hR1 e name hnd hnr hc _ _ (fun f => ⟨rfl, rfl, rfl, rfl, rfl, rfl, rfl⟩)
     (fun f => ⟨rfl, rfl, rfl, rfl, rfl, rfl, rfl⟩)
@@ -686,6 +737,7 @@ theorem qsim_setNoChecks {P : Qp} {s t : St} (hR : StRq P s t) (e : Nat) (name :
         rw [hfr3.lk rn hndr]
         refine SimQ.bind (qsim_functionChanged hR2 e _) ?_ (by tr) (by tr)
         intro _ _ s3 t3 hR3 _
+        refine qsim_rootBindsFunc_bind hR3 rn ?_
         refine SimQ.bind (Q := fun _ _ => True) ?_ (fun _ _ s4 t4 hR4 _ => SimQ.pure hR4 ⟨rfl, hcv⟩) (by tr) (by tr)
         exact qsim_storeSet hR3 re rn hndr hnr hc _ _ (fun f => ⟨rfl, rfl, rfl, rfl, rfl, rfl, rfl⟩)
           (fun f => ⟨rfl, rfl, rfl, rfl, rfl, rfl, rfl⟩)
